@@ -761,6 +761,12 @@ fn pass(p: &Program, paths: &[CPath], st: &Structure) -> Result<(Vec<Action>, BT
     let mut defs: BTreeSet<(usize, Vec<u32>)> = BTreeSet::new();
     for path in paths {
         let mut asgs: Vec<Asg> = vec![vec![None; path.var_names.len()]];
+        // conclusions of this path that are still waiting to be applied: a later then-statement
+        // may mention a term that an earlier one of the same match defines (`then x = fa(x); then
+        // pa(x, fa(x));`); such a match is re-evaluated in the next pass, once the earlier
+        // conclusion is in place. At the fixed point nothing is pending, so a term that is still
+        // undefined then is reported.
+        let path_start = actions.len();
         for s in &path.stmts {
             if asgs.is_empty() {
                 break;
@@ -785,10 +791,13 @@ fn pass(p: &Program, paths: &[CPath], st: &Structure) -> Result<(Vec<Action>, BT
                                     // an argument term is not defined (yet): the statement cannot fire;
                                     // a surjective program defines it through an earlier statement
                                     None => {
+                                        if actions.len() > path_start {
+                                            continue;
+                                        }
                                         return Err(ChaseError::Uninterpretable(format!(
                                             "rule {}: `then {text}` mentions an undefined term",
                                             path.rule_name
-                                        )))
+                                        )));
                                     }
                                 }
                             }
@@ -818,10 +827,13 @@ fn pass(p: &Program, paths: &[CPath], st: &Structure) -> Result<(Vec<Action>, BT
                                                         next.push(asg);
                                                     }
                                                     None => {
+                                                        if actions.len() > path_start {
+                                                            continue;
+                                                        }
                                                         return Err(ChaseError::Uninterpretable(format!(
                                                             "rule {}: `then {text}`: nested undefined term",
                                                             path.rule_name
-                                                        )))
+                                                        )));
                                                     }
                                                 }
                                             }
@@ -831,10 +843,13 @@ fn pass(p: &Program, paths: &[CPath], st: &Structure) -> Result<(Vec<Action>, BT
                                         }
                                     }
                                     (None, None) => {
+                                        if actions.len() > path_start {
+                                            continue;
+                                        }
                                         return Err(ChaseError::Uninterpretable(format!(
                                             "rule {}: `then {text}`: neither side is defined",
                                             path.rule_name
-                                        )))
+                                        )));
                                     }
                                 }
                             }
